@@ -93,7 +93,9 @@ def run(ctx) -> Result:
     n = 160 if not ctx.thorough else 3000
     for i in range(n):
         cfg = pipecheck.CONFIGS[i % len(pipecheck.CONFIGS)]
-        if i % 4 == 3:
+        if i % 8 == 6:
+            hist = pipe.gen_history_arrivals(rng, n=rng.randint(1, 3))
+        elif i % 4 == 3:
             hist = pipe.gen_history_renames(rng, n_renames=rng.randint(2, 5))
         elif i % 4 == 1:
             hist = pipe.gen_history_filechurn(rng, n_ops=rng.randint(4, 12))
